@@ -409,6 +409,23 @@ pub fn run(ctx: &Ctx) {
         ctx.merge(t);
         ctx.space("conversions: walking-bit EUI48 / EUI64 / IPv4 / IPv6 addresses through the From impls; Deref / DerefMut / From of the name-wrapping record types", n, "complete");
     }
+    // OPT (type 41) RDATA: option triples, through the EDNS oracle of C09 (parse of the RFC
+    // layout with every option list, build inspected by the independent walker)
+    {
+        let mut t = Tally::default();
+        let mut n = 0u64;
+        for (i, list) in super::c09::option_lists().into_iter().enumerate() {
+            let p = RefPacket { id: i as u16, flags: F_QR, opt: Some(RefOpt { udp: 1232, version: 0, options: list }), ..Default::default() };
+            for f in super::c09::check_parse(&p, 0).into_iter().chain(super::c09::check_build(&p)) {
+                ctx.violation(Finding { sig: f.sig.replacen("C09|", "C10|OPT|", 1), ..f });
+            }
+            n += 1;
+            t.evals += 1;
+            t.nontrivial += 1;
+        }
+        ctx.merge(t);
+        ctx.space("OPT RDATA: every option list of the EDNS family (codes {0,1,0xffff}, data lengths {0,1,2,300}, up to 3 options, empty options in every position) parsed from the RFC layout and built", n, "complete");
+    }
     // typed SVCB / HTTPS setters in every order
     {
         let mut seqs: Vec<Vec<u8>> = Vec::new();
@@ -613,6 +630,13 @@ pub fn check_svcb_builders(seq: &[u8], variant: usize, https: bool) -> Vec<Findi
 pub fn replay(case: &Value) -> Vec<Finding> {
     match case["kind"].as_str().unwrap_or("") {
         "conversions" => check_conversions().0,
+        "build" | "parse" => match serde_json::from_value::<RefPacket>(case["packet"].clone()) {
+            Ok(p) => {
+                let fs = if case["kind"].as_str() == Some("build") { super::c09::check_build(&p) } else { super::c09::check_parse(&p, case["opt_pos"].as_u64().unwrap_or(0) as usize) };
+                fs.into_iter().map(|f| Finding { sig: f.sig.replacen("C09|", "C10|OPT|", 1), ..f }).collect()
+            }
+            Err(_) => vec![],
+        },
         "svcb-builders" => {
             let seq: Vec<u8> = case["seq"].as_array().map(|a| a.iter().filter_map(|x| x.as_u64().map(|v| v as u8)).collect()).unwrap_or_default();
             check_svcb_builders(&seq, case["variant"].as_u64().unwrap_or(0) as usize, case["https"].as_bool().unwrap_or(false))
